@@ -109,14 +109,15 @@ def updRows : List Row → List HIdx → List (Nat × Row × List Nat) → Optio
         rest
 
 /-- phase 2 of UPDATE: `update_indexes_for_update(old, new, i)` row by row, `old` taken from the
-rows as they were before the statement -/
-def updUser (us : List UIdx) : List (Nat × Row × Row) → List UIdx
+rows as they were before the statement (`rows0`) -/
+def updUser (us : List UIdx) (rows0 : List Row) : List (Nat × Row × List Nat) → List UIdx
   | [] => us
-  | (i, old, new) :: rest =>
-    updUser (us.map (fun u => { u with data := uPatch u.data (proj u.cols old) (proj u.cols new) i })) rest
-
-def oldNew (rows : List Row) (ups : List (Nat × Row × List Nat)) : List (Nat × Row × Row) :=
-  ups.filterMap (fun e => match rows[e.1]? with | some old => some (e.1, old, e.2.1) | none => none)
+  | (i, new, _) :: rest =>
+    match rows0[i]? with
+    | none => updUser us rows0 rest
+    | some old =>
+      updUser (us.map (fun u => { u with data := uPatch u.data (proj u.cols old) (proj u.cols new) i }))
+        rows0 rest
 
 /-- `Table::delete_where` on the rows: positions in `ps` removed, order kept -/
 def removeAt (rows : List Row) (ps : List Nat) : List Row :=
@@ -149,7 +150,7 @@ def step (s : TState) : Op → TState × Option TErr
     match updRows s.rows s.hidx ups with
     | none => (s, some .outOfRange)
     | some (rows', hs') =>
-      ({ s with rows := rows', hidx := hs', uidx := updUser s.uidx (oldNew s.rows ups) }, none)
+      ({ s with rows := rows', hidx := hs', uidx := updUser s.uidx s.rows ups }, none)
   | .upsert i new =>
     match s.rows[i]? with
     | none => (s, some .outOfRange)
@@ -167,7 +168,7 @@ def step (s : TState) : Op → TState × Option TErr
      none)
   | .replace r =>
     let ps := conflictPos s.hidx s.rows r
-    let rows' := removeAt s.rows ps
+    let rows' := if ps.isEmpty then s.rows else removeAt s.rows ps
     let s1 : TState :=
       { s with rows := rows', hidx := hRebuildAll s.hidx rows'
                uidx := if ps.isEmpty then s.uidx else uRebuildAll s.uidx rows' }
